@@ -649,6 +649,13 @@ func genScale(g *tr.G) {
 		}
 		h.pop(k + 1)
 		h.observe()
+		if n >= 1000 {
+			// a Set of a third as many (still hundreds of) elements into the buffer that is there
+			h.tag("scale-set-into-bigger-buffer")
+			h.op("S" + h.gen(n/3).String())
+			h.observe()
+			h.pop(20)
+		}
 		h.emit()
 	}
 	for _, how := range []byte{'A', 'S', 'W'} {
@@ -810,12 +817,12 @@ func genScale(g *tr.G) {
 		h.emit()
 	}
 	// 7. random batched histories with a few random large sizes
-	for i := 0; i < g.Scale(30, 400); i++ {
+	for i := 0; i < g.Scale(30, 120); i++ {
 		h := newScale(g)
 		h.tag("scale-random")
 		top := tr.Pick(r, []int{40, 100, 300, 700})
 		if g.Thorough() {
-			top = tr.Pick(r, []int{40, 100, 300, 700, 1500, 3000, 5000})
+			top = tr.Pick(r, []int{40, 100, 300, 700, 1500, 3000})
 		}
 		for len(h.ops) < 24 {
 			n := h.len()
